@@ -380,7 +380,11 @@ func (r *Run) Sample(v any) {
 }
 
 // WantSample tells whether another sample would be kept.
-func (r *Run) WantSample() bool { r.mu.Lock(); defer r.mu.Unlock(); return len(r.samples) < r.maxSamples }
+func (r *Run) WantSample() bool {
+	r.mu.Lock()
+	defer r.mu.Unlock()
+	return len(r.samples) < r.maxSamples
+}
 
 // Count adds to a named monitor-side counter.
 func (r *Run) Count(name string, n int64) { r.mu.Lock(); r.counters[name] += n; r.mu.Unlock() }
